@@ -42,6 +42,12 @@ of two nested loops (while, for each, mixed), in a loop inside an if / else --
 with observable statements behind it in the body, behind the inner loop and
 behind the loops.
 
+Family strlit: string literals holding backslashes (also as the last character, before n / t / x / u / N / digits /
+another backslash), a tab, percent signs, braces and characters outside ASCII (Latin-1, BMP, astral) as returned
+value, variable, operand of +, written attribute value, in where clauses (from instances any / many, along a chain)
+and in if / elif / while conditions; every ordered pair of the literals compared with == and !=.  The value of a
+literal is the text between its quotes.
+
 Link instances related to one participant only (one half of a link made or
 removed without `using`, or a participant deleted) are states of the sequence
 search, over the reflexive association class R4 and over R3; the probes read
@@ -72,6 +78,8 @@ ASSUMPTIONS = [
     'below the comparisons below the arithmetic operators below the unary operators; and / or group to the left, comparisons do not '
     'chain); the reference evaluates the tree, the interpreter the text printed with the fewest parentheses that keep the tree; '
     'and / or are evaluated on both operands (operands have no side effects in this family); == / != between booleans are part of it',
+    'strlit family: OAL has no escape sequences -- the value of a string literal is exactly the text between its quotes (any '
+    'character but a quote and a line break), two literals are equal exactly when their texts are',
     'rebind family: a variable lives in the block of its first binding whatever value it holds (also an empty handle, an empty '
     'set, 0, false, ""); a later binding in a nested block -- assignment, create, select, for-each loop variable -- updates that '
     'variable, and the value is what reads inside and after the nested block see',
@@ -983,6 +991,9 @@ def family_case(ctx, case):
     elif fam == 'loopctl':
         prog = case['prog']
         sig = 'c04:loopctl:%s' % case['control']
+    elif fam == 'strlit':
+        prog = strlit_program(case['context'], case['lit'], case.get('other'))
+        sig = 'c04:strlit:%s' % case['context']
     else:
         prog = case['prog']
         sig = 'c04:rebind:%s' % case['container']
@@ -1030,6 +1041,10 @@ def family_task(sub, cases):
             sub.distinct('loopctl_shapes', (case['control'], case['guard'], case['loop']))
             if case['control'] in ('stop', 'return-value', 'return-bare'):
                 sub.count('loopctl_action_ended_inside_a_loop')
+        elif case['family'] == 'strlit':
+            sub.distinct('strlit_literals', case['lit'])
+            if '\\' in case['lit'] or any(ord(ch) > 127 for ch in case['lit']):
+                sub.count('strlit_backslash_or_non_ascii')
         else:
             sub.distinct('rebind_outer_bindings', case['what'])
             sub.distinct('rebind_containers', case['container'])
@@ -1246,6 +1261,77 @@ def loopctl_cases(tier):
     return out
 
 
+# ---------------------------------------------------------------------------
+# family strlit: the value of a string literal is the text between its quotes -- OAL has no escape sequences, a
+# backslash, a percent sign, a brace, a tab or a character outside ASCII is a character like any other
+# ---------------------------------------------------------------------------
+
+STR_LITERALS = [
+    'plain', '', ' ', 'C:\\new\\table', 'a\\\\b', 'a\\b', 'ends with \\', '\\', '\\\\', '\\n', '\\t\\r\\0\\a', '\\x41', 'A', '\\u00e9',
+    '\\U0001F600', '\\N{BULLET}', '\\101', '\\\'', 'tab\there', 'caf\u00e9', '\u00e9', '\u65e5\u672c\u8a9e', 'astral \U0001F600',
+    '\u2022', '\xff\xfe', '%s %d %%', '{0} {x}', "it's // no /* comment */", '\u00c3\u00a9',
+]
+STR_CONTEXTS = ['return', 'variable', 'concat', 'attribute', 'where-many', 'where-any', 'where-related', 'if', 'elif', 'while', 'equal']
+
+
+def strlit_program(context, lit, other=None):
+    """The program using the literal in the context (other: a second literal it is compared with)."""
+    sel = ('selected',)
+    L = S(lit)
+    if context == 'return':
+        return [('return', L)]
+    if context == 'variable':
+        return [ASG(V('s'), L), ASG(V('t'), V('s')), ('return', V('t'))]
+    if context == 'concat':
+        return [ASG(V('s'), B('+', S('<'), L)), ASG(V('s'), B('+', V('s'), L)), ('return', B('+', V('s'), S('>')))]
+    if context == 'equal':
+        # two literals are equal exactly when their texts are
+        M = S(other)
+        return [ASG(V('n'), I(0)), ASG(V('s'), L),
+                IF(B('==', L, M), [ASG(V('n'), B('+', V('n'), I(1)))]), IF(B('!=', V('s'), M), [ASG(V('n'), B('+', V('n'), I(2)))]),
+                IF(B('==', M, V('s')), [ASG(V('n'), B('+', V('n'), I(4)))]), ('return', V('n'))]
+    pop = [('create', 'a1', 'A'), ASG(F('a1', 'K'), I(1)), ASG(F('a1', 'Name'), L),
+           ('create', 'a2', 'A'), ASG(F('a2', 'K'), I(2)), ASG(F('a2', 'Name'), S('other')),
+           ('create', 'a3', 'A'), ASG(F('a3', 'K'), I(3)), ASG(F('a3', 'Name'), B('+', L, S('.'))),
+           ('create', 'a4', 'A'), ASG(F('a4', 'K'), I(4)), ASG(F('a4', 'Name'), F('a1', 'Name')),
+           ('relate', 'a1', 'a2', 'R2', T('prev'), None), ('relate', 'a2', 'a3', 'R2', T('prev'), None),
+           ('relate', 'a3', 'a4', 'R2', T('prev'), None), ('selfrom', 'many', 'as_', 'A', None, True)]
+    w = B('==', ('field', sel, 'Name'), L)
+    if context == 'attribute':
+        return pop + [('return', F('a4', 'Name'))]
+    if context == 'where-many':
+        return pop + [('selfrom', 'many', 'rs', 'A', w, True), ('return', V('rs'))]
+    if context == 'where-any':
+        return pop + [('selfrom', 'any', 'x', 'A', B('and', w, B('>', ('field', sel, 'K'), I(1))), True), ('return', V('x'))]
+    if context == 'where-related':
+        return pop + [('selrel', 'many', 'rs', V('as_'), [('A', 'R2', T('prev'))], B('!=', ('field', sel, 'Name'), L)), ('return', V('rs'))]
+    hit = [ASG(V('n'), B('+', B('*', V('n'), I(2)), I(1)))]
+    miss = [ASG(V('n'), B('*', V('n'), I(2)))]
+    if context == 'if':
+        body = [IF(B('==', F('x', 'Name'), L), hit, [], miss)]
+    elif context == 'elif':
+        body = [IF(B('==', F('x', 'Name'), S('other')), miss, [(B('==', L, F('x', 'Name')), hit)], miss)]
+    elif context == 'while':
+        # appends the literal to the name until it is the name of a3 (at most twice)
+        body = [ASG(V('s'), F('x', 'Name')), ASG(V('k'), I(0)),
+                ('while', B('and', B('!=', B('+', V('s'), S('.')), B('+', B('+', L, L), S('.'))), B('<', V('k'), I(2))),
+                 [ASG(V('s'), B('+', V('s'), L)), ASG(V('k'), B('+', V('k'), I(1)))], True),
+                ASG(V('n'), B('+', B('*', V('n'), I(3)), V('k')))]
+    else:
+        raise ValueError(context)
+    return pop + [ASG(V('n'), I(0)), ('foreach', 'x', 'as_', body, True), ('return', V('n'))]
+
+
+def strlit_cases(tier):
+    out = []
+    for lit in STR_LITERALS:
+        for c in STR_CONTEXTS[:-1]:
+            out.append(dict(family='strlit', context=c, lit=lit))
+        for other in STR_LITERALS:
+            out.append(dict(family='strlit', context='equal', lit=lit, other=other))
+    return out
+
+
 DEPTH = {'quick': 2, 'thorough': 3}
 
 
@@ -1277,7 +1363,7 @@ def run(ctx):
     cases = anyrel_cases(ctx.tier)
     cases = explorer.rotate(cases, ctx.seed)
     ctx.pmap(anyrel_task, [cases[i:i + 40] for i in range(0, len(cases), 40)])
-    fam = explorer.rotate(boolexpr_cases(ctx.tier) + rebind_cases(ctx.tier) + loopctl_cases(ctx.tier), ctx.seed)
+    fam = explorer.rotate(boolexpr_cases(ctx.tier) + rebind_cases(ctx.tier) + loopctl_cases(ctx.tier) + strlit_cases(ctx.tier), ctx.seed)
     ctx.pmap(family_task, [fam[i::len(fam) // 25 + 1] for i in range(len(fam) // 25 + 1)])
     ctx.count('states', len(seen) + len(FAN_ORDERS[ctx.tier]) + len(fam))
     longest = max(seen.values(), key=len)
@@ -1299,6 +1385,9 @@ def run(ctx):
     ctx.require(ctx.n('loopctl_out_of_domain') == 0 and ctx.n('loopctl_action_ended_inside_a_loop') >= 300,
                 'loopctl family: %d runs end the action inside a loop, %d programs the reference rejects'
                 % (ctx.n('loopctl_action_ended_inside_a_loop'), ctx.n('loopctl_out_of_domain')))
+    ctx.require(ctx.n('strlit_out_of_domain') == 0 and ctx.n('strlit_backslash_or_non_ascii') >= 600,
+                'strlit family: %d runs with a backslash or a non-ASCII character in the literal, %d programs the reference rejects'
+                % (ctx.n('strlit_backslash_or_non_ascii'), ctx.n('strlit_out_of_domain')))
     ctx.require(ctx.nd('nontrivial') >= 300, 'too few programs with loops / conditionals / where clauses (%d)' % ctx.nd('nontrivial'))
 
 
@@ -1311,7 +1400,7 @@ def replay(ctx, case):
     if case.get('family') == 'anyrel':
         check_anyrel(ctx, case)
         return
-    if case.get('family') in ('boolexpr', 'rebind', 'loopctl'):
+    if case.get('family') in ('boolexpr', 'rebind', 'loopctl', 'strlit'):
         family_case(ctx, case)
         return
     check_program(ctx, case['prog'], case.get('family', 'seq'))
@@ -1331,7 +1420,8 @@ def coverage(ctx):
              'clause or a relationship chain; plus the anyrel family: every (link order, chain, where clause, any|one, observation '
              'variant) combination over the fan-out population; plus the boolexpr family: every (template, context[, valuation]) '
              'case, the rebind family: every (outer binding, container, inner binding, read after the block) case, and the loopctl '
-             'family: every (control statement, guard, loop shape, statements behind the loops) case',
+             'family: every (control statement, guard, loop shape, statements behind the loops) case, and the strlit family: every '
+             '(literal, context) case and every ordered pair of literals',
         bounds=dict(depth=DEPTH[ctx.tier], setups=len(SETUPS), pools=dict(A=3, B=2, C=1, L=2), setup_menus=SETUP_FOCUS,
                     anyrel=dict(link_orders=FAN_ORDERS[ctx.tier], chains=len(ANYREL_CHAINS),
                                 where_clauses=len(anyrel_wheres(ANYREL_CHAINS[0][1], ctx.tier)),
@@ -1356,5 +1446,9 @@ def coverage(ctx):
                                  loops=[l[0] for l in loopctl_loops(ctx.tier)], behind_the_loops=[a[0] for a in loopctl_afters()],
                                  nesting='two loop levels (thorough: three), loops inside if / else',
                                  population='3 A, 2 B (R1 b1-a1, R2 a1-a2)')),
+        strlit=dict(runs=ctx.n('strlit_runs'), literals=ctx.nd('strlit_literals'),
+                    runs_with_a_backslash_or_a_non_ascii_character=ctx.n('strlit_backslash_or_non_ascii'),
+                    bounds=dict(literals=STR_LITERALS, contexts=STR_CONTEXTS, pairs='every ordered pair of the literals (context equal)',
+                                population='4 A in a chain along R2, names: the literal, "other", the literal + ".", a copy of the first')),
         exhaustive=not ctx.caps_hit,
     )
